@@ -187,6 +187,20 @@ CHECKS['C10'] = dict(
          'prescribed cards" is an induction over the log (paper step). Board-card landing: C14; cards come from cards not in play: C06.',
     technique='sidecar contracts + own VC generator over the real AST + z3 against an independent rule spec; native replay of counter-models')
 
+CHECKS['C05'] = dict(
+    category='proof',
+    text='from_game and from_game_or_none of the 11 hand classes are executed from their real source -- the loops over '
+         'itertools.combinations, the try/except around the constructor, the running maximum through the real Hand.__lt__/__eq__ and '
+         'the total_ordering derivations, the three-level super() chain of Omaha, badugi\'s largest-size-first search -- on abstract distinct '
+         'cards, with "is a valid hand of the type" and "entry index" as free symbols per card set. For every (hole, board) count of the '
+         'domain the result is proved to be made of a combination the statement allows (any five; both hole plus three board cards; exactly '
+         'two hole plus three board cards; the largest valid subset), to be at least as strong as every legal combination, and ValueError / '
+         'None to occur exactly when no legal combination exists. Hole and board cards are passed both as tuples and as one-shot iterators.',
+    design_ref='DESIGN.md section 4 (C05), section 8',
+    note='D/shape in the card counts: quick a thinned set up to 7 cards (Omaha up to 4+4, 3+5), thorough every (hole, board) with at most 7 '
+         'cards plus 3+5, Omaha up to 5+5; the hand tables themselves are C04; itertools.combinations trusted as documented.',
+    technique='sidecar contracts + own VC generator over the real AST (abstract cards, uninterpreted validity / strength per card set) + z3')
+
 NOT_APPLICABLE = {
     'C20': 'regex-driven text importers against external site formats; no contract within reach expresses or decides it (DESIGN.md section 5)',
 }
